@@ -13,7 +13,11 @@
        GENERATED bounds block (Gen/G_dok.v: g_dok_bounds_pos / g_dok_bounds_neg), the value is
        narrowed by
        `value if value_missing_dims > 0 else (value[0] if value.shape[0] == 1 else value[v_idx])`
-       and the leaf stores the element or, when it equals the fill value, deletes the key. *)
+       and the leaf stores the element or, when it equals the fill value, deletes the key.
+   State of the source: /repo after the round-7 repairs (b72190a _fancy_key, 336daf5, d195a7a,
+   6eae3a6 leading length-1 axes of the value, e6d97fc the empty key): () is (Ellipsis,), index
+   sequences are checked / sanitised / wrapped before _fancy_setitem and _fancy_getitem, a 1-d
+   boolean mask is one index sequence, a tuple of integers on a 1-d DOK is a basic key. *)
 From Coq Require Import ZArith List Bool.
 From Verif Require Import Py PyExt G_slicing G_dok PySlice Shape Slicing COO NpIndex CooIndex NpAssign.
 Import ListNotations.
